@@ -320,6 +320,19 @@ def S_create_columns(Q, n):
     return Q.create_table("t").columns((n, "INT"), r["Column"]("b", "TEXT")).unique(n).primary_key(n)
 
 
+def S_create_case_twins(Q, n):
+    # two declared columns whose names differ in letter case only, each with a key constraint of its own (quoted identifiers are
+    # case-sensitive: the constraint names the spelling it was given)
+    r = _r()
+    m = n.swapcase()
+    return Q.create_table("t").columns((n, "INT"), (m, "INT"), r["Column"]("b", "TEXT")).unique(m, "b").primary_key(n)
+
+
+def S_create_case_twins_reverse(Q, n):
+    m = n.swapcase()
+    return Q.create_table("t").columns((m, "INT"), (n, "INT")).primary_key(m).unique(n)
+
+
 def S_period_for(Q, n):
     return Q.create_table("t").columns(("a", "INT"), ("b", "INT")).period_for(n, "a", "b")
 
@@ -406,6 +419,11 @@ def S_column_object(Q, n):
 
 
 SITES = {k[2:].replace("_", "-"): v for k, v in list(globals().items()) if k.startswith("S_")}
+EXPECT_IDENTS = {
+    "create-case-twins": lambda n: ["t", n, n.swapcase(), "b", n.swapcase(), "b", n],
+    "create-case-twins-reverse": lambda n: ["t", n.swapcase(), n, n, n.swapcase()],
+    "create-columns": lambda n: ["t", n, "b", n, n],
+}
 ONLY = {"returning": {"PostgreSQLQuery"}, "distinct-on": {"PostgreSQLQuery"}, "mysql-upsert-alias": {"MySQLQuery"},
         "load": {"MySQLQuery"}}
 # sites whose SQLite statement can be prepared against a schema built from the name: site -> (ddl using {n})
@@ -502,6 +520,10 @@ def run_case(case, mon):
                 if not (b.kind == "IDENT" and b.value == n and b.text[0] == q):
                     fault = "identifier token %r does not denote %r" % (b.text[:40], n)
                     break
+            elif a.kind == "IDENT" and a.value == MARK.swapcase():
+                if not (b.kind == "IDENT" and b.value == n.swapcase() and b.text[0] == q):
+                    fault = "identifier token %r does not denote %r (the case twin of the name)" % (b.text[:40], n.swapcase())
+                    break
             elif (a.kind, a.value if a.kind in ("IDENT", "STR", "NUM", "WORD") else a.text) != (
                     b.kind, b.value if b.kind in ("IDENT", "STR", "NUM", "WORD") else b.text):
                 fault = "token %r became %r" % (a.text[:30], b.text[:30])
@@ -511,6 +533,14 @@ def run_case(case, mon):
         mon.violation("%s:%s:%s" % (kind, site, fam), "name %r at %s/%s: %s; emitted %r" % (n, site, d, fault, sql_n[:240]),
                       {"sql": sql_n, "marker_sql": sql_m})
         return
+    want_idents = EXPECT_IDENTS.get(site)
+    if want_idents is not None:
+        # absolute expectation (a differential walk cannot see a fault that the marker statement shares)
+        got_idents = [t_.value for t_ in tn if t_.kind == "IDENT"]
+        mon.count("absolute_identifier_sequences_checked")
+        if got_idents != want_idents(n):
+            mon.violation("wrong-identifier-sequence:%s:%s" % (site, fam), "identifiers %r, expected %r: %r" % (got_idents[:10], want_idents(n)[:10], sql_n[:240]))
+            return
     mon.count("names_emitted_ok")
     # the same statement rendered without a context (str()): identical text, so every name keeps the dialect's quoting
     sql_s, es = render(site, d, n, default_root=True)
